@@ -849,7 +849,7 @@ def stmts_flat(s):
     return out
 
 
-def inline_single_returns(node, by_pat, rect, depth=3):
+def inline_single_returns(node, by_pat, rect, depth=3, file=None):
     """copy of node in which calls of non-public members of `rect` (or free functions of the library) whose whole body is
     `return expr;` are replaced by that expression with the parameters bound to the arguments: a closed form moved into a small
     private helper reads the same as written in place"""
@@ -873,7 +873,8 @@ def inline_single_returns(node, by_pat, rect, depth=3):
         if n.get("k") == "Call" and d > 0 and n.get("cpat") in by_pat:
             cal = by_pat[n["cpat"]]
             b = stmts_of(cal.get("body"))
-            own = cal.get("rect") == rect and (cal.get("access", 2) != 0 or rect in struct_like(by_pat))
+            own = (cal.get("rect") == rect and rect is not None and (cal.get("access", 2) != 0 or rect in struct_like(by_pat))) \
+                or (file is not None and not cal.get("rect") and str(cal.get("pat", "")).rsplit(":", 1)[0] == file)   # helper local to this file
             if own and len(b) == 1 and b[0].get("k") == "Return" and b[0].get("e") is not None and cal.get("params") and len(cal.get("params", [])) == len(n.get("args", [])) \
                     and (n.get("obj") is None or strip(n["obj"]).get("k") == "This"):
                 m = {p["d"]: a for p, a in zip(cal["params"], n["args"])}
